@@ -114,6 +114,12 @@ def _find_class(ns_name: str, cls_name: str):
 
 
 def _paths_for(cls) -> list[str]:
+    """transport paths a message class travels on, plus "json_text": the plain JSON text form of serialize()'s dict
+    (json.dumps / json.loads - what the reply path, the buffered-message store and the repository's own tests use)."""
+    return _real_paths_for(cls) + ["json_text"]
+
+
+def _real_paths_for(cls) -> list[str]:
     if cls is getattr(EM, "RegisterEngineMsg", None):
         return ["rest_request"]
     if issubclass(cls, EM.EngineMessage):
@@ -127,7 +133,11 @@ def _paths_for(cls) -> list[str]:
     return ["rpc_request", "rpc_reply"]
 
 
-ALL_PATHS = ["rpc_request", "rpc_reply", "rest_request", "rest_response"]
+ALL_PATHS = ["rpc_request", "rpc_reply", "rest_request", "rest_response", "json_text"]
+
+
+class NotJudged(Exception):
+    """the path does not apply to this value (counted, never a verdict)"""
 
 
 # ---- the real transport's JSON path -----------------------------------------------------------------------
@@ -154,6 +164,14 @@ def transport(path: str, d: dict):
     if path == "rest_response":
         body = JSONResponse(jsonable_encoder(d)).body
         return httpx.Response(200, content=body).json()
+    if path == "json_text":
+        try:
+            text = json.dumps(d)
+        except TypeError as ex:
+            # serialize() may return values only pydantic's encoder handles (sets); the real transports cope, plain JSON text
+            # does not apply to such a message
+            raise NotJudged(str(ex))
+        return json.loads(text)
     raise HarnessError("unknown path %r" % path)
 
 
@@ -449,6 +467,8 @@ def check_roundtrip(case, msg) -> list[Violation]:
         wire = transport(path, d)
     except HarnessError:
         raise
+    except NotJudged:
+        return []
     except (ValueError, TypeError) as ex:
         # the library's encoder refused the dict produced by serialize(): the message cannot be sent at all
         if has_nf and "JSON compliant" in str(ex):
